@@ -26,6 +26,12 @@ type Formatter struct {
 	// If this flag turns on, the return statement MUST return the subroutine return type, not a state
 	// so it should not wrap the parenthesis even if configuration is true.
 	isFunctionalSubroutine bool
+
+	// stateful formatting - inside an if / else if condition.
+	// The condition is laid out line by line (trimmed, indented, nested groups indented again),
+	// the line feeds of a block comment inside it are not layout: they are protected like the
+	// line feeds of a string literal and restored by Format().
+	insideCondition int
 }
 
 // Create Formatter pointer
@@ -163,18 +169,22 @@ func (f *Formatter) formatComment(comments ast.Comments, sep string, level int) 
 		if !isMacro {
 			buf.WriteString(f.indent(level))
 		}
+		text := comments[i].String()
+		if f.insideCondition > 0 {
+			text = protectLineFeeds(text)
+		}
 		switch {
 		case isMacro:
 			// the macro is recognised by its exact "#FASTLY" prefix, never restyle it
-			buf.WriteString(comments[i].String())
+			buf.WriteString(text)
 		case f.conf.CommentStyle == config.CommentStyleSharp, f.conf.CommentStyle == config.CommentStyleSlash:
 			r := '#' // default as sharp style comment
 			if f.conf.CommentStyle == config.CommentStyleSlash {
 				r = '/'
 			}
-			buf.WriteString(formatCommentCharacter(comments[i].String(), r))
+			buf.WriteString(formatCommentCharacter(text, r))
 		default:
-			buf.WriteString(comments[i].String())
+			buf.WriteString(text)
 		}
 		buf.WriteString(sep)
 	}
